@@ -299,7 +299,7 @@ static var Range_Iter_Type(var self) {
 
 static size_t Range_Len(var self) {
   struct Range* r = self;
-  if (r->step == 0) { return 0; }
+  if (r->step == 0 or r->stop <= r->start) { return 0; }
   if (r->step  > 0) { return ((r->stop-1) - r->start) /  r->step + 1; }
   if (r->step  < 0) { return ((r->stop-1) - r->start) / -r->step + 1; }
   return 0;
